@@ -30,7 +30,7 @@ type c15Prog struct {
 }
 
 func genC15(t *rapid.T) c15Prog {
-	cfg := sim.GenConfig{MaxReplicas: 3, MaxOps: ev.Scale(24, 60), MinOps: 1, Codecs: []int{0}, AppendBias: 2, NoRebuild: true, NoSetID: false}
+	cfg := sim.GenConfig{MaxReplicas: 3, MaxOps: ev.Scale(24, 60), MinOps: 1, Codecs: []int{0}, AppendBias: 2, NoRebuild: true, NoSetID: false, LargeOneIn: ev.Scale(96, 64)}
 	w := sim.Gen(t, cfg)
 	p := c15Prog{World: w}
 	p.Replica = rapid.IntRange(0, w.Replicas-1).Draw(t, "replica")
